@@ -80,3 +80,29 @@ Proof. exact polls_bound. Qed.
 
 Theorem C17_no_ub : forall n s, result (deserialize n s) <> DUB.
 Proof. exact no_ub. Qed.
+
+(* ---- tie to the current source: regenerated on every run by tools/ga2coq (coq/gen/GenGuards.v) ----
+   the up-front hint check, the fullness test, the guard of the surplus probe and the announced
+   tuple length of src/impl_serde.rs, as they stand now, are what the model's visit_seq uses *)
+From Coq Require Import String.
+From GA Require Import Guards GuardTie.
+From GAGen Require Import GenGuards.
+Local Open Scope Z_scope.
+
+Theorem C17_source_hint_check : forall n (h : option Z),
+  hint_rejects n h =
+  match h with Some v => ctest (env1 "hint" v) (Z.of_nat n) serde_hint_guard | None => false end.
+Proof. exact tie_serde_hint. Qed.
+
+Theorem C17_source_full_test : forall pos n : nat,
+  Nat.eqb pos n = ctest (env1 "position" (Z.of_nat pos)) (Z.of_nat n) serde_full_test.
+Proof. exact tie_serde_full. Qed.
+
+Theorem C17_source_probe_guard : forall h : option Z,
+  serde_probe_guard = ("!=", 0)%string /\
+  hint_allows_probe h = match h with Some v => negb (v =? snd serde_probe_guard) | None => true end.
+Proof. exact tie_serde_probe. Qed.
+
+Theorem C17_source_tuple_len :
+  serde_tuple_lens = [("serialize_tuple", GN); ("deserialize_tuple", GN)]%string.
+Proof. exact tie_serde_tuple_len. Qed.
